@@ -695,13 +695,16 @@ def must_pass_chain(ctx, key, body, steps, desc, removed_edges=frozenset(), rule
         else:
             nxt = []
             for s in sites:
-                if any(s in body.reaches(c, removed_edges=removed_edges) for c in cur):
+                # (a site shared with the previous step is a helper call that performs both steps)
+                if s in cur or any(s in body.reaches(c, removed_edges=removed_edges) for c in cur):
                     nxt.append(s)
             if not nxt:
                 return ctx.ob(key, rule, body.path, desc, False, 'step %d (%s) has no site after step %d' % (i + 1, name, i), body.loc())
             # the LAST anchor of the previous step that can still be followed: require from every cur site
             # that paths to Return pass some nxt site lying after it
             for c in cur:
+                if c in sites:
+                    continue
                 after = [s for s in nxt if s in body.reaches(c, removed_edges=removed_edges)]
                 starts = [x for x in body.succ(c) if (c, x) not in removed_edges]
                 w = body.find_path(starts, rets, removed=set(after) | errs, removed_edges=removed_edges)
